@@ -18,6 +18,7 @@ package fox
 //@ pred recINV(r *recorder) = wFinal[r.ResponseWriter] >= 0 && wBody[r.ResponseWriter] >= 0 && (!r.hijacked ==> (r.size == -1 <==> wFinal[r.ResponseWriter] == 0) && (wFinal[r.ResponseWriter] == 0 ==> wBody[r.ResponseWriter] == 0 && r.status == 200) && (r.size >= 0 ==> r.size == wBody[r.ResponseWriter]) && r.size >= -1 && wFinal[r.ResponseWriter] <= 1 && (wFinal[r.ResponseWriter] == 1 ==> r.status == wFirst[r.ResponseWriter]))
 
 //@ func (*recorder).reset props C14,C12
+//@   noalloc @C16
 //@   requires r != nil
 //@   requires wFinal[w] == 0 && wBody[w] == 0
 //@   modifies *r
